@@ -17,11 +17,13 @@
    * uniqueItems = true: no two items at different positions are the same value
      (floats compare as numbers: +0 and -0 are the same, NaN is the same as nothing);
    * an enum value (a number on the wire) is named by option i (1-based, in
-     declaration order) when it is i; 0 is <prefix>UNSPECIFIED; a rule may name
+     declaration order) when it is i; 0 is <prefix>UNSPECIFIED, nameable only
+     when the enum declares it explicitly as its first option; a rule may name
      an option with or without the enum's prefix;
    * key:uuid = the canonical text 8-4-4-4-12 of hexadecimal digits; key:id62 =
      22 characters of 0-9 A-Z a-z; key:custom / pattern = the (RE2) pattern finds
-     a match in the text ([re_match], see Validate.v);
+     a match somewhere in the text ([pat_sem]: a parameter here; instantiated in
+     props/C12.v with the declarative matching relation of model/Regex.v);
    * required: the field must be populated. Presence is protobuf's: a singular
      scalar declared without [optional] has no presence of its own, it is
      populated iff its value is not the default (0, "", false, first enum value);
@@ -46,12 +48,12 @@ Definition within (lo hi : option N) (n : N) : Prop :=
   (forall m, lo = Some m -> (m <= n)%N) /\ (forall m, hi = Some m -> (n <= m)%N).
 
 Section Spec.
-(* [re_match p s]: the regular expression p (RE2 syntax) finds a match in the text s *)
-Variable re_match : str -> str -> bool.
+(* [pat_sem p s]: the regular expression p (RE2 syntax) finds a match in the text s *)
+Variable pat_sem : str -> str -> Prop.
 
 Definition str_sem (r : str_rules) (s : str) : Prop :=
   within (sr_min r) (sr_max r) (count s)          (* s: code points *)
-  /\ (forall p, sr_pat r = Some p -> re_match p s = true).
+  /\ (forall p, sr_pat r = Some p -> pat_sem p s).
 
 Definition bytes_sem (r : len_rules) (b : str) : Prop :=
   within (lr_min r) (lr_max r) (count b).         (* b: bytes *)
@@ -64,8 +66,9 @@ Definition full_name (env : enum_env) (name full : str) : Prop :=
 
 (* the number n is the value the option name [name] denotes *)
 Definition names_value (env : enum_env) (name : str) (n : Z) : Prop :=
-  exists i o f, nth_error (ee_options env) i = Some o /\ n = Z.of_nat (S i)
-                /\ full_name env o f /\ full_name env name f.
+  (exists i o f, nth_error (ee_options env) i = Some o /\ n = Z.of_nat (S i)
+                 /\ full_name env o f /\ full_name env name f)
+  \/ (n = 0 /\ exists z f, ee_zero env = Some z /\ full_name env z f /\ full_name env name f).
 
 Definition defined_value (env : enum_env) (n : Z) : Prop :=
   n = 0 \/ exists i o, nth_error (ee_options env) i = Some o /\ n = Z.of_nat (S i).
@@ -96,7 +99,7 @@ Definition id62_text (s : str) : Prop := length s = 22%nat /\ Forall alnum s.
 Definition key_sem (f : kfmt) (s : str) : Prop :=
   match f with
   | KInformal => True
-  | KCustom p => re_match p s = true
+  | KCustom p => pat_sem p s
   | KUuid => uuid_text s
   | KId62 => id62_text s
   end.
@@ -139,7 +142,7 @@ Definition map_sem (r : map_rules) (kvs : list (str * value)) : Prop :=
 (* ---- presence --------------------------------------------------------------------- *)
 Definition message_typed (t : fty) : Prop :=
   match t with
-  | TDate _ _ | TDecimal _ _ | TTimestamp _ | TAny _ _ _ | TObject _ | TOneof _ => True
+  | TDate _ _ | TDecimal _ _ | TTimestamp _ _ | TAny _ _ _ | TObject _ _ | TOneof _ _ => True
   | _ => False
   end.
 
